@@ -99,6 +99,7 @@ fn framing_of(ty: Option<Ty>, generic: bool, b: &[u8]) -> Result<Result<(Framing
 pub fn check_c08(ctx: &mut Ctx, input: &[u8]) {
     let data = exact(input);
     let b: &[u8] = &data;
+    let _case = crate::watchdog::case_bytes("c08", b);
     ctx.eval();
     // what the input stream contains (floor): reasons for which the predicate must fail
     if b.len() >= 4 {
@@ -265,6 +266,7 @@ fn truthful(e: &RtcpParseError, b: &[u8], own_pt: Option<u8>) -> Result<(), Stri
 pub fn check_c18(ctx: &mut Ctx, input: &[u8]) {
     let data = exact(input);
     let b: &[u8] = &data;
+    let _case = crate::watchdog::case_bytes("c18", b);
     let len = b.len();
     ctx.eval();
     let mut any_err = false;
@@ -375,6 +377,7 @@ pub fn floor_c18(ctx: &Ctx) -> Vec<(String, bool)> {
 pub fn check_c12(ctx: &mut Ctx, input: &[u8]) {
     let data = exact(input);
     let b: &[u8] = &data;
+    let _case = crate::watchdog::case_bytes("c12", b);
     if b.len() < 4 {
         return;
     }
@@ -571,6 +574,7 @@ fn iterate_with_history(b: &[u8], hist: u64) -> Result<(Vec<String>, Vec<bool>),
 pub fn check_c11(ctx: &mut Ctx, input: &[u8]) {
     let data = exact(input);
     let b: &[u8] = &data;
+    let _case = crate::watchdog::case_bytes("c11", b);
     ctx.eval();
     let tiles = dec::tiling(b);
     let hist = mix(fnv(b), ctx.seed);
@@ -790,6 +794,7 @@ fn rb_at(b: &[u8], o: usize) -> obs::RbObs {
 pub fn check_c09_bytes(ctx: &mut Ctx, input: &[u8]) {
     let data = exact(input);
     let b: &[u8] = &data;
+    let _case = crate::watchdog::case_bytes("c09-bytes", b);
     let len = b.len();
     ctx.eval();
     let bound = obs::bound_for(len);
@@ -957,6 +962,7 @@ pub fn check_c09_bytes(ctx: &mut Ctx, input: &[u8]) {
 
 /// second half of C09: packets from the independent encoder are accepted and read back equal
 pub fn check_c09_cfg(ctx: &mut Ctx, cfg: &crate::cfg::Cfg) {
+    let _case = crate::watchdog::case_cfg("c09-cfg", cfg, crate::drive::How::default());
     if !crate::mon::roundtrip::in_domain(cfg) && !matches!(cfg, crate::cfg::Cfg::Unknown { .. }) {
         return;
     }
